@@ -488,3 +488,44 @@ Proof.
   - intros H. injection H as -> -> ->. auto.
   - intros (-> & -> & ->). reflexivity.
 Qed.
+
+(* ------------------------------------------------------------------ AcceptOffer instances *)
+Lemma is_token_ok t : M.is_token t = true -> token_ok t.
+Proof.
+  unfold M.is_token. destruct t as [|c t]; [discriminate|]. intros H. split; [discriminate|].
+  rewrite forallb_forall in H. apply Forall_forall. intros x Hx. rewrite tchar_eq. now apply H.
+Qed.
+
+Lemma ptext_eq (ps : M.params) :
+  flat_map (fun nv : str * str => 59%N :: fst nv ++ 61%N :: escape_and_quote (snd nv)) ps =
+  params_text (map (fun nv : str * str => mkP [] [] (fst nv) (escape_and_quote (snd nv))) ps).
+Proof.
+  unfold params_text. induction ps as [|nv ps IH]; [reflexivity|]. cbn [flat_map map]. rewrite IH. reflexivity.
+Qed.
+
+(* a pre-parsed offer AcceptOffer(type, subtype, params) is treated exactly as the media type text it stands
+   for, str(offer) = type "/" subtype *( ";" name "=" quoted-or-token value )  (C03's form_media_range) *)
+Theorem accept_offer_as_text ty st (ps : M.params) :
+  M.is_token ty = true -> M.is_token st = true ->
+  forallb (fun p => M.is_token (fst p)) ps = true -> existsb (fun p => M.is_q_name (fst p)) ps = false ->
+  Forall (fun nv => qchar_ok (snd nv)) ps ->
+  M.parse_offer (M.OObj ty st ps) = M.parse_offer_str (form_media_range (ty ++ 47%N :: st) ps).
+Proof.
+  intros Hty Hst Hn Hq Hv. unfold M.parse_offer. rewrite Hty, Hst, Hn, Hq. cbn [andb negb].
+  set (rps := map (fun nv : str * str => mkP [] [] (fst nv) (escape_and_quote (snd nv))) ps).
+  assert (Etext : form_media_range (ty ++ 47%N :: st) ps = offer_text ty st rps).
+  { unfold form_media_range, offer_text, rps. rewrite ptext_eq, <- app_assoc. reflexivity. }
+  assert (Hok : offer_ok ty st rps).
+  { split; [now apply is_token_ok|]. split; [now apply is_token_ok|].
+    unfold rps. apply Forall_forall. intros p Hp. apply in_map_iff in Hp as (nv & <- & Hin).
+    rewrite forallb_forall in Hn. rewrite Forall_forall in Hv.
+    unfold param_ok. cbn [p_ows1 p_ows2 p_name p_val].
+    split; [constructor|]. split; [constructor|]. split; [apply (is_token_ok _ (Hn nv Hin))|]. split.
+    - apply qname_eq'. destruct (M.is_q_name (fst nv)) eqn:E; [|reflexivity].
+      assert (existsb (fun p => M.is_q_name (fst p)) ps = true) by (apply existsb_exists; eauto). congruence.
+    - apply inv_value, quote_in_grammar, (Hv nv Hin). }
+  rewrite Etext, (parse_offer_rendered ty st rps Hok).
+  destruct (str_eqb ty M.star || str_eqb st M.star); [reflexivity|].
+  unfold offer_norm, M.lower_names, rps. rewrite map_map. do 2 f_equal.
+  apply map_ext. intros nv. cbn [p_name p_val]. now rewrite quote_inverse.
+Qed.
